@@ -279,11 +279,11 @@ fn c15_forward_dropped_uses_no_room() { forward_case(28, 36) }
 
 // @harness c15_forward_exact_fit_concrete
 // @props C15 C03
-// @tier quick
+// @tier thorough
 // @variant dl128_lists2
 // @stubbing yes
-// @timeout 1800
-// @mem 12
+// @timeout 3600
+// @mem 34
 // @functions Port::send_announce, TlvSetBuilder::add, ForwardedTLV::size
 // @bounds concrete master port (fresh instance, path trace off), provider with one ORGANIZATION_EXTENSION_PROPAGATE TLV from the parent whose wire size equals the whole room (value 60 octets, room 64 at MAX_DATA_LEN 128; 956 of 960 at the real size), first value octet symbolic
 // @assume provider honours the documented contract of next_if_smaller (wire size <= max_size is handed over), as statime-linux's TlvForwarder does
